@@ -11,9 +11,10 @@ From DBG Require Import Spec.Dna Spec.GraphIndex Spec.Unitig Spec.CompressSpec P
   Algo.KmerHist Algo.GraphModel Algo.Recompress Spec.EdgeSpec Check.GraphCheck Check.PipelineCheck Check.RecompCheck Check.RecompLooseCheck
   Proofs.ListFacts Proofs.DnaFacts Proofs.KmerAlgebra Proofs.ExtsProofs Proofs.ExtsWalk
   Proofs.CompressBasics Proofs.CompressProofs Proofs.CompressGraphOk Proofs.FilterProofs Proofs.GraphQueryProofs
-  Proofs.ValidGraphProofs Proofs.PipelineCheckProofs Proofs.UnitigUnique Proofs.GraphRcProofs
+  Proofs.ValidGraphProofs Proofs.PipelineCheckProofs Proofs.UnitigUnique Proofs.GraphRcProofs Proofs.ShardProofs
   Proofs.ComposeSweeps Proofs.WalkProofs Proofs.RecompressProofs Proofs.RecompKmers Proofs.RecompExts Proofs.RecompLoose
   Proofs.E2eDefs Proofs.E2eSym Proofs.E2eGraph Proofs.E2eTable Proofs.LooseGraph Proofs.LooseValid.
+From DBG Require Proofs.UnitigSeqUnique.
 Import ListNotations.
 Local Open Scope nat_scope.
 
@@ -477,5 +478,218 @@ Proof.
     + rewrite Ex. apply osq_in_node_kmers; auto. now apply term_in_kmers; [|apply (nwf K g1 Hwf n Hin)].
     + unfold y. rewrite (entry_kmer (u, t) m Hm). cbn [fst snd]. apply osq_in_node_kmers; auto.
       now apply term_in_kmers; [|apply (nwf K g1 Hwf m Him)].
+Qed.
+
+(* B2: a merge of SL leaving the far end of a node of a path is the sole mutual link to a node end *)
+Lemma merge_rnext a (n : node_t) y : nth_error g1 (fst a) = Some n -> (st = true -> snd a = DLeft) ->
+  mergeableb st kj SL (last_kmer K (nd_seq (onode a))) y = true ->
+  exists u t, rnext pay join K st g1 (fst a) (dflip (snd a)) = Some (u, t) /\
+    first_kmer K (nd_seq (onode (u, t))) = y /\ (st = true -> t = DLeft).
+Proof.
+  intros Hn Hsa Hmg. pose proof (node_in _ n Hn) as Hin.
+  set (d := snd a) in *. set (s := dflip d) in *. set (X := term_kmer K (nd_seq n) s) in *.
+  destruct (term_facts n s Hin) as (LX & WX & NX). fold X in LX, WX, NX.
+  pose proof (lg_lt _ _ _ _ _ Hlg n Hin) as Len.
+  pose proof (exit_kmer a n Hn) as Ex. fold d s X in Ex. set (x := last_kmer K (nd_seq (onode a))) in *.
+  destruct (mergeable_inv st kj SL x y Hmg) as (b & Hb & Er & El & Ey & Px & Py & Hne & Hj).
+  set (bb := ob d b). assert (Hbb : (bb < 4)%N) by (apply ob_lt; exact Hb).
+  assert (Hsole : e_num_ext_dir (nd_exts n) (dirb s) = 1%N /\ e_get_unique_extension (nd_exts n) (dirb s) = Some bb).
+  { apply (sole_links _ (nd_exts n) (dirb s) d Len (proj1 (rlinks_nodup x)) (proj2 (rlinks_nodup x))); auto.
+    - intros c Hc. exact (exit_links a n c Hn Hsa Hc Px).
+    - unfold bb. now rewrite ob_ob. }
+  destruct Hsole as [Hnum Hu].
+  destruct (ExtsWalk.unique_ext_spec _ _ Len Hnum) as (b0 & Hu0 & _ & Hh0 & _).
+  assert (Q : Some b0 = Some bb) by (rewrite <- Hu0; exact Hu). injection Q as ->.
+  assert (Hps : RecompCheck.pal_single pay K st n = false).
+  { destruct (RecompCheck.pal_single pay K st n) eqn:P; [|reflexivity]. apply (pal_single_iff n s Hin) in P. fold X in P.
+    rewrite Ex, kpal_osq in Px by exact WX. congruence. }
+  set (nk := extend X bb s).
+  assert (Wnk : wf_dna nk) by (apply extend_wf; auto).
+  assert (Eynk : y = osq d nk).
+  { rewrite Ey, Ex. change (tl (osq d X) ++ [b]) with (extend (osq d X) b DRight).
+    rewrite (osq_extend d X b DRight NX Hb), eside_right. reflexivity. }
+  destruct Hv as (_ & _ & _ & _ & Hres & _).
+  pose proof (Hres (fst a) s bb n Hn (in_bases4 bb Hbb) Hh0) as Hr.
+  rewrite (ext_link_eq K st g1 (fst a) n s bb Hn Hh0) in Hr. fold X nk in Hr.
+  destruct (find_link pay K st g1 nk s) as [[[u t] f]|] eqn:Hl; [|congruence].
+  destruct (entered_kmer nk s u t f Wnk Hl) as (m & Hm & Eu & Hst_t). unfold s in Eu at 1. rewrite dflip_dflip in Eu.
+  pose proof (node_in _ m Hm) as Him. pose proof (lg_lt _ _ _ _ _ Hlg m Him) as Lem.
+  assert (Hsb : st = true -> t = DLeft).
+  { intro E. rewrite (Hst_t E). unfold s. rewrite dflip_dflip. exact (Hsa E). }
+  exists u, t. split; [|split; [now rewrite Eu, Eynk | exact Hsb]].
+  assert (Efy : first_kmer K (nd_seq (onode (u, t))) = y) by (now rewrite Eu, Eynk).
+  assert (Hx4 : (hd 0 x < 4)%N).
+  { assert (H : In (hd 0%N x) (llinks st SL y)) by (rewrite El; now left). now apply llinks_nodup in H. }
+  assert (Hnum' : e_num_ext_dir (nd_exts m) (dirb t) = 1%N).
+  { apply (proj1 (sole_links _ (nd_exts m) (dirb t) t Lem (proj1 (llinks_nodup y)) (proj2 (llinks_nodup y))
+             ltac:(intros c Hc; rewrite <- Efy; apply (entry_links (u, t) m c Hm Hsb Hc); now rewrite Efy) (ob t (hd 0%N x)) (ob_lt _ _ Hx4))).
+    now rewrite ob_ob. }
+  apply (rnext_intro pay join K st g1 (fst a) s u t n bb f m); auto.
+  - change (kpal st nk = false). rewrite <- (kpal_osq d nk Wnk), <- Eynk. exact Py.
+  - change (n_data pay n) with (snd n). change (n_data pay m) with (snd m). rewrite (join_kj_nodes n m x y Hin Him); [exact Hj | |].
+    + rewrite Ex. apply osq_in_node_kmers; auto. now apply term_in_kmers; [|apply (nwf K g1 Hwf n Hin)].
+    + rewrite <- Efy, (entry_kmer (u, t) m Hm). cbn [fst snd]. apply osq_in_node_kmers; auto.
+      now apply term_in_kmers; [|apply (nwf K g1 Hwf m Him)].
+Qed.
+
+(* ---- node paths ---- *)
+Definition KS (p : list (nat * dir)) : list dna := flat_map (fun a => kmers K (nd_seq (onode a))) p.
+Record wpath (p : list (nat * dir)) : Prop := {
+  wp_id : forall a, In a p -> fst a < length g1;
+  wp_linked : Linked pay join K st g1 p;
+  wp_st : st = true -> forall a, In a p -> snd a = DLeft;
+  wp_nodup : NoDup (map fst p);
+  wp_ne : p <> [] }.
+
+Lemma nth_of_id v : v < length g1 -> exists n : node_t, nth_error g1 v = Some n.
+Proof. intro H. destruct (nth_error g1 v) as [n|] eqn:E; [eauto | apply nth_error_None in E; lia]. Qed.
+Lemma block_lnode p a : wpath p -> In a p -> lnode_ok (onode a).
+Proof.
+  intros Wp Ha. destruct (nth_of_id (fst a) (wp_id p Wp a Ha)) as [n Hn]. apply (onode_ok a n Hn).
+  intro E. exact (wp_st p Wp E a Ha).
+Qed.
+Lemma block_ne p a : wpath p -> In a p -> kmers K (nd_seq (onode a)) <> [].
+Proof. intros Wp Ha. destruct (ln_wf _ _ _ _ _ (block_lnode p a Wp Ha)) as [W L]. now apply kmers_nonempty. Qed.
+Lemma block_hd p a : wpath p -> In a p -> hd [] (kmers K (nd_seq (onode a))) = first_kmer K (nd_seq (onode a)).
+Proof. intros Wp Ha. destruct (ln_wf _ _ _ _ _ (block_lnode p a Wp Ha)) as [W L]. symmetry. now apply first_kmer_hd_. Qed.
+Lemma block_last p a : wpath p -> In a p -> last (kmers K (nd_seq (onode a))) [] = last_kmer K (nd_seq (onode a)).
+Proof. intros Wp Ha. destruct (ln_wf _ _ _ _ _ (block_lnode p a Wp Ha)) as [W L]. symmetry. now apply last_kmer_last_. Qed.
+Lemma Linked_pairs p a b : Linked pay join K st g1 p -> In (a, b) (pairs p) -> RecompCheck.step_ok pay join K st g1 a b = true.
+Proof. unfold Linked, pairs. intros H Hin. rewrite Forall_forall in H. exact (H (a, b) Hin). Qed.
+Lemma in_pairs_in {A} (l : list A) a b : In (a, b) (pairs l) -> In a l /\ In b l.
+Proof. apply in_combine_tl_inv. Qed.
+
+(* U2 along a node path: every step of the spelled k-mer list is a merge *)
+Lemma KS_pairs_merge p x y : wpath p -> In (x, y) (pairs (KS p)) -> mergeableb st kj SL x y = true.
+Proof.
+  intros Wp H. unfold KS in H. apply (in_pairs_flat_map _ p [] x y (fun a Ha => block_ne p a Wp Ha)) in H.
+  destruct H as [(a & Ha & H)|(a & b & Hab & -> & ->)].
+  - exact (ln_unb _ _ _ _ _ (block_lnode p a Wp Ha) (x, y) H).
+  - destruct (in_pairs_in p a b Hab) as [Ha Hb].
+    destruct (junction_merge a b (fun E => wp_st p Wp E a Ha) (Linked_pairs p a b (wp_linked p Wp) Hab)) as [G _].
+    rewrite <- (block_last p a Wp Ha), <- (block_hd p b Wp Hb) in G. exact G.
+Qed.
+
+Lemma g1_restrict : restrict pay K st g1 (seq 0 (length g1)) = Some g1.
+Proof. exact (eq_trans (RecompLoose.restrict_all_prune pay K st g1) (RecompLoose.prune_rvalid_id pay K st g1 Hv)). Qed.
+Lemma g1_winv : winv pay K st g1 (seq 0 (length g1)).
+Proof. apply (restrict_winv pay K st g1 g1 (seq 0 (length g1)) Hv); [|exact g1_restrict]. intros x Hx. apply in_seq in Hx. unfold graph, gnode, node_t in *. lia. Qed.
+Lemma g1_wf_graph : wf_graph pay K g1.
+Proof. split; [exact HK|]. intros n Hn. exact (nwf K g1 Hwf n Hn). Qed.
+
+Lemma seq_from_wf first p : forall sq, sequence_of_path_from pay K g1 first p = Some sq -> wf_dna sq.
+Proof.
+  revert first. induction p as [|[v d] p IH]; intros first sq H; cbn [sequence_of_path_from] in H.
+  - injection H as <-. constructor.
+  - destruct (@nth_error (gnode pay) g1 v) as [n|] eqn:En; [|discriminate].
+    destruct (sequence_of_path_from pay K g1 false p) as [t|] eqn:Et; [|discriminate]. injection H as <-.
+    apply KmerAlgebra.wf_app. split; [|now apply (IH false)]. apply wf_skipn.
+    destruct (nwf K g1 Hwf n (nth_error_In _ _ En)) as [_ W]. unfold oriented. destruct d; [exact W | apply rc_wf].
+Qed.
+
+(* spelling: the k-mers of the sequence of a node path are those of its nodes, read in the direction of travel *)
+Lemma spell p sq : wpath p -> sequence_of_path pay K g1 p = Some sq -> kmers K sq = KS p /\ wf_dna sq /\ K <= length sq.
+Proof.
+  intros Wp Hsq.
+  pose proof (Linked_valid_walk pay join K st g1 _ p g1_winv (wp_id p Wp) (wp_linked p Wp)) as Vw.
+  destruct (path_spelling pay K st g1 p g1_wf_graph Vw) as (s' & Hs' & Hk). rewrite Hsq in Hs'. injection Hs' as <-.
+  assert (E : kmers K sq = KS p).
+  { rewrite Hk. unfold walk_kmers, KS. apply flat_map_ext_in. intros a Ha. now rewrite (onode_oseq a (wp_id p Wp a Ha)). }
+  split; [exact E|]. split; [exact (seq_from_wf true p sq Hsq)|].
+  assert (Hne : kmers K sq <> []).
+  { rewrite E. apply flat_map_ne; [exact (wp_ne p Wp) | intros a Ha; exact (block_ne p a Wp Ha)]. }
+  destruct (Nat.le_gt_cases K (length sq)) as [H|H]; [exact H|]. exfalso. apply Hne. unfold kmers.
+  replace (length sq + 1 - K) with 0 by lia. reflexivity.
+Qed.
+
+(* ---- one result node and its node path ---- *)
+Record opath (n : node_t) (p : list (nat * dir)) : Prop := {
+  op_w : wpath p;
+  op_seq : sequence_of_path pay K g1 p = Some (nd_seq n);
+  op_exts : path_exts pay g1 p = Some (nd_exts n);
+  op_lt : (nd_exts n < 256)%N;
+  op_max : forall x d w t, In x (map fst p) -> rnext pay join K st g1 x d = Some (w, t) -> In w (map fst p) }.
+
+Lemma op_ks n p : opath n p -> kmers K (nd_seq n) = KS p /\ node_wf K n.
+Proof. intros O. destruct (spell p (nd_seq n) (op_w n p O) (op_seq n p O)) as (E & W & L). split; [exact E | split; assumption]. Qed.
+
+Lemma nodup_fst_dir (p : list (nat * dir)) v d1 d2 : NoDup (map fst p) -> In (v, d1) p -> In (v, d2) p -> d1 = d2.
+Proof.
+  induction p as [|[v0 d0] p IH]; intros Hnd' H1 H2; [destruct H1|]. cbn [map fst] in Hnd'. inversion Hnd' as [|? ? Hn Hr]; subst.
+  destruct H1 as [H1|H1], H2 as [H2|H2].
+  - congruence.
+  - injection H1 as -> ->. exfalso. apply Hn. change v with (fst (v, d2)). now apply in_map.
+  - injection H2 as -> ->. exfalso. apply Hn. change v with (fst (v, d1)). now apply in_map.
+  - now apply IH.
+Qed.
+
+(* a palindromic single-k-mer node is a path of its own *)
+Lemma pal_block_single p a (n : node_t) : wpath p -> In a p -> nth_error g1 (fst a) = Some n ->
+  RecompCheck.pal_single pay K st n = true -> p = [a].
+Proof.
+  intros Wp Ha Hn Hps. apply in_split in Ha as (q1 & q2 & ->).
+  assert (Hno : forall x d y t, x = fst a -> rnext pay join K st g1 x d = Some (y, t) -> False).
+  { intros x d y t -> R. destruct (rnext_inv pay join K st g1 _ _ _ _ R) as (n' & _ & _ & _ & Hn' & _ & Hp' & _).
+    assert (Q : Some n' = Some n) by (rewrite <- Hn'; exact Hn). injection Q as ->. congruence. }
+  destruct q2 as [|b q2].
+  - destruct q1 as [|c q1] using rev_ind; [reflexivity|]. exfalso. clear IHq1.
+    pose proof (wp_linked _ Wp) as L. rewrite <- app_assoc in L. cbn [app] in L.
+    apply Linked_mid, step_ok_inv in L. destruct L as [_ L]. exact (Hno _ _ _ _ eq_refl L).
+  - exfalso. pose proof (wp_linked _ Wp) as L. apply Linked_mid, step_ok_inv in L. destruct L as [L _].
+    destruct b as [u t]. exact (Hno _ _ _ _ eq_refl L).
+Qed.
+
+Lemma in_KS p x : In x (KS p) <-> exists a, In a p /\ In x (kmers K (nd_seq (onode a))).
+Proof. unfold KS. apply in_flat_map. Qed.
+
+Lemma endelt_in (p : list (nat * dir)) r : p <> [] -> exists v s, endelt p r = Some (v, s) /\ In (v, s) p.
+Proof.
+  destruct p as [|a p]; [congruence|]. intros _. unfold endelt. destruct r.
+  - destruct a as [v s]. exists v, s. split; [reflexivity | now left].
+  - destruct (last (a :: p) a) as [v s] eqn:E. exists v, s. split; [reflexivity|]. rewrite <- E.
+    apply (last_in (a :: p) a). discriminate.
+Qed.
+
+(* the end of a result node = the end of the end node of its path, read in the direction of travel *)
+Lemma op_end n p r : opath n p -> exists v s (n' : node_t), endelt p r = Some (v, s) /\ In (v, s) p /\ nth_error g1 v = Some n' /\
+  term_kmer K (nd_seq n) r = term_kmer K (nd_seq (onode (v, s))) r /\
+  forall c, (c < 4)%N -> e_has_ext (nd_exts n) (dirb r) c = e_has_ext (nd_exts (onode (v, s))) (dirb r) c.
+Proof.
+  intro O. pose proof (op_w n p O) as Wp. destruct (endelt_in p r (wp_ne p Wp)) as (v & s & He & Hin).
+  destruct (nth_of_id v (wp_id p Wp (v, s) Hin)) as [n' Hn']. exists v, s, n'. split; [exact He|]. split; [exact Hin|]. split; [exact Hn'|].
+  pose proof (Linked_valid_walk pay join K st g1 _ p g1_winv (wp_id p Wp) (wp_linked p Wp)) as Vw. split.
+  - rewrite (end_kmer pay K st g1 p (nd_seq n) r v s g1_wf_graph Vw (op_seq n p O) He).
+    rewrite (onode_term (v, s) n' r Hn'). cbn [fst snd]. unfold EdgeSpec.node_seq. unfold graph, gnode, node_t in *. now rewrite Hn'.
+  - intros c Hc. rewrite (path_exts_bit pay K g1 p (nd_exts n) r v s n' c (wi_ok _ _ _ _ _ g1_winv) (op_exts n p O) He Hn' (in_bases4 c Hc)).
+    now rewrite (onode_bit (v, s) n' r c Hn' Hc).
+Qed.
+
+Lemma op_lnode n p : opath n p -> lnode_ok n.
+Proof.
+  intro O. pose proof (op_w n p O) as Wp. destruct (op_ks n p O) as [Eks Wn]. constructor.
+  - exact Wn.
+  - exact (op_lt n p O).
+  - intros [x y] H. rewrite Eks in H. exact (KS_pairs_merge p x y Wp H).
+  - intros r c Hc. destruct (op_end n p r O) as (v & s & n' & He & Hin & Hn' & Et & Hb).
+    destruct (ln_ends _ _ _ _ _ (block_lnode p (v, s) Wp Hin) r c Hc) as [H1 H2]. rewrite Et, (Hb c Hc). split; [exact H1|].
+    intro P. 
+    assert (Pn : RecompCheck.pal_single pay K st n' = true).
+    { apply (pal_single_iff n' (eside s r) (node_in v n' Hn')). rewrite (onode_term (v, s) n' r Hn'), kpal_osq in P; [exact P|].
+      now destruct (term_facts n' (eside s r) (node_in v n' Hn')) as (_ & ? & _). }
+    pose proof (pal_block_single p (v, s) n' Wp Hin Hn' Pn) as Ep.
+    destruct (op_end n p (dflip r) O) as (v2 & s2 & n2 & He2 & _ & _ & _ & Hb2).
+    rewrite Ep in He2. assert (Q : (v2, s2) = (v, s)) by (destruct r; cbn in He2; congruence). injection Q as -> ->.
+    rewrite (Hb2 (comp c) (comp_lt4 c)). exact (H2 P).
+  - intros w Hw P. rewrite Eks in Hw. apply in_KS in Hw as (a & Ha & Hw).
+    pose proof (block_lnode p a Wp Ha) as La. pose proof (ln_pal _ _ _ _ _ La w Hw P) as Llen.
+    destruct (nth_of_id (fst a) (wp_id p Wp a Ha)) as [n' Hn'].
+    assert (Pn : RecompCheck.pal_single pay K st n' = true).
+    { apply (pal_single_iff n' DLeft (node_in _ n' Hn')). 
+      destruct (ln_wf _ _ _ _ _ La) as [Wa _]. rewrite (kmers_exact K _ HK Llen) in Hw. destruct Hw as [<-|[]].
+      rewrite (onode_seq a n' Hn'), kpal_osq in P by (apply (nwf K g1 Hwf n' (node_in _ n' Hn'))).
+      rewrite (onode_seq a n' Hn'), osq_length in Llen. now rewrite (GraphQueryProofs.term_kmer_single K _ DLeft Llen). }
+    pose proof (pal_block_single p a n' Wp Ha Hn' Pn) as Ep. rewrite Ep in Eks. unfold KS in Eks. cbn [flat_map] in Eks. rewrite app_nil_r in Eks.
+    destruct Wn as [_ Ln]. destruct (ln_wf _ _ _ _ _ La) as [_ La'].
+    rewrite (UnitigSeqUnique.kmers_inj K _ _ HK Ln La' Eks). exact Llen.
 Qed.
 End Main.
